@@ -130,6 +130,7 @@ type CR3Parts struct {
 	XMP                    []byte // xpacket payload (nil = absent)
 	Preview                []byte // JPEG bytes of the PRVW box (nil = absent)
 	PrvwW, PrvwH           uint16
+	CTBOOver               int // declared CTBO item count exceeds the items present by this much (malformed variant)
 }
 
 // CR3 is a generated file and its ground truth.
@@ -184,10 +185,13 @@ func BuildCR3(r *core.Rng, p CR3Parts, noise int, large64 bool) CR3 {
 		cctp := &Box{Type: "CCTP", Payload: r.Bytes(r.Range(12, 80)), Tag: "CCTP"}
 		canonKids = append(canonKids, cctp)
 	}
-	if r.Chance(3, 4) {
+	if r.Chance(3, 4) || p.CTBOOver > 0 {
 		n := r.Range(1, 5)
+		if p.CTBOOver > 0 {
+			n = 5
+		}
 		pl := make([]byte, 4+20*n)
-		binary.BigEndian.PutUint32(pl, uint32(n))
+		binary.BigEndian.PutUint32(pl, uint32(n+p.CTBOOver))
 		for i := 0; i < n; i++ {
 			binary.BigEndian.PutUint32(pl[4+20*i:], uint32(i+1))
 			binary.BigEndian.PutUint64(pl[8+20*i:], r.U64()>>20)
